@@ -1432,6 +1432,11 @@ class PackRepository(MetaDirVersionedFileRepository):
             raise
         for pack in self._pack_collection._resumed_packs:
             self.revisions._index.scan_unvalidated_index(pack.revision_index)
+            # so that commit_write_group sees missing compression parents of
+            # resumed packs before it starts finishing any of them
+            self.inventories._index.scan_unvalidated_index(pack.inventory_index)
+            self.texts._index.scan_unvalidated_index(pack.text_index)
+            self.signatures._index.scan_unvalidated_index(pack.signature_index)
 
     def get_transaction(self):
         """Get the current transaction for this repository.
